@@ -121,6 +121,17 @@ def completion_rules(chk, P, prefix):
     return guard_bodies, variants
 
 
+def _is_empty(b, op):
+    o = b.origin(op)
+    while o[0] in ("ref", "copy", "deref"):
+        o = o[1]
+    if o[0] == "agg":
+        return (o[1].get("adt") or "").endswith("empty::Empty")
+    if o[0] == "const":
+        return "empty::Empty" in str(o[1].get("ty") or "") or "Empty" in str(o[1].get("def") or "")
+    return False
+
+
 def run(chk):
     P = mir.Program("K1")
     chk.use_program(P)
@@ -426,6 +437,9 @@ def run(chk):
             return False, "both arms of is_panicking() must build completion props", [], b.span
         if "panic_lvl" not in seen[True][0] or not seen[True][1]:
             return False, "the panicking arm must carry panic_lvl and the error (fields used: %s, error: %s)" % seen[True], [], ip[0].loc
+        if "lvl" in seen[True][0]:
+            return False, ("while panicking the level falls back to the span's normal `lvl` before `error`: a levelled span (info_span, debug_span ..) that panics "
+                           "completes at its ordinary level instead of the panic level"), [], ip[0].loc
         if "lvl" not in seen[False][0] or "panic_lvl" in seen[False][0] or seen[False][1]:
             return False, "the normal arm must carry lvl and no error (fields used: %s, error: %s)" % seen[False], [], ip[0].loc
         # lookups are first-wins: the completion's own props (level, error) must come *before* the span's props
@@ -465,6 +479,8 @@ def run(chk):
             return False, "emits through %s / %s" % (o_str(b.origin(e.args[0])), o_str(b.origin(e.args[2]))), [], e.loc
         if not common.has_root(b.origin(e.args[4]), "param", 2):
             return False, "the emitted event is not built from the completed span", [], e.loc
+        if not _is_empty(b, e.args[1]):
+            return False, "the completion filters the completed span again (%s): the filter decision was taken when the span began" % o_str(b.origin(e.args[1])), [], e.loc
         return True, "", [ip[0].loc, e.loc]
     chk.ob("C05.R7:Default::complete", "the default completion adds panic level + error only while panicking, the span level otherwise, and emits once through its own emitter and ctxt", r7)
 
@@ -503,6 +519,25 @@ def run(chk):
                     return False, "field `%s` mixes in another parameter" % field, [], b.span
             return True, "", [b.span]
         return f
+    def completions_do_not_filter():
+        """Whether a span is enabled is decided once, when it begins (the guard is created enabled or disabled).  Its completion event is then emitted
+        unconditionally: every Completion impl of the crate that emits directly passes the empty filter to emit_core::emit.  A completion that
+        consults a filter again can reject the event after the guard has been consumed: an enabled, started span that completes zero times."""
+        ev = []
+        for bb_ in P.bodies.values():
+            if bb_.crate != "emit" or bb_.is_closure or bb_.trait != COMPLETION or bb_.method != "complete":
+                continue
+            for x in [bb_] + P.closures_of(bb_):
+                for c in x.calls_to(path="emit_core::emit"):
+                    if not _is_empty(x, c.args[1]):
+                        return False, ("%s emits the completed span through the filter %s: a span that was enabled when it began can be rejected at completion "
+                                       "(and `when:` is ignored there)" % (bb_.key, o_str(x.origin(c.args[1])))), [], c.loc
+                    ev.append(c.loc)
+        if len(ev) < 3:
+            raise mir.AnchorMissing("Completion impls that emit directly (found %d)" % len(ev))
+        return True, "", ev
+    chk.ob("C05.R7:completions-do-not-filter", "no completion consults a filter: the enabled / disabled decision was taken when the span began", completions_do_not_filter)
+
     chk.ob("C05.hooks:__private_complete_span", "the macro hook stores lvl/panic_lvl/tpl/rt in the like-named fields",
            hook_ctor("__private_complete_span", "__PrivateCompleteSpan", {"rt": "rt", "tpl": "tpl", "lvl": "lvl", "panic_lvl": "panic_lvl"}))
     chk.ob("C05.hooks:__private_complete_span_ok", "the macro hook stores lvl/tpl/rt in the like-named fields",
